@@ -149,6 +149,7 @@ def gen_db(rnd, sx, size=None):
         rows = []
         used = {}
         small = rnd.random() < 0.6      # small value pools force collisions
+        tiny = small and rnd.random() < 0.5
         for tid, pids in sch.types.items():
             for o in objs[tid]:
                 row = ['O', tid, o]
@@ -157,9 +158,9 @@ def gen_db(rnd, sx, size=None):
                     if p['kind'] == 'l':
                         pool = [f'#{x}' for x in objs[p['target']]]
                     elif p['kind'] == 'i':
-                        pool = [str(x) for x in range(0, 3 if small else 6)]
+                        pool = [str(x) for x in range(0, (2 if tiny else 3) if small else 6)]
                     else:
-                        pool = [f's{x}' for x in range(0, 3 if small else 6)]
+                        pool = [f's{x}' for x in range(0, (2 if tiny else 3) if small else 6)]
                     if p['excl']:
                         pool = [v for v in pool if v not in used.setdefault(pid, set())]
                     lo = 1 if p['req'] else 0
@@ -683,7 +684,7 @@ class Gen:
             return None
         # prefer exclusive single pointers
         best = [p for p in cands if self.sch.ptrs[p]['excl'] and not self.sch.ptrs[p]['multi']]
-        pid = rnd.choice(best) if best and rnd.random() < 0.75 else rnd.choice(cands)
+        pid = rnd.choice(best) if best and rnd.random() < 0.55 else rnd.choice(cands)
         self.used.add((x, pid))
         pty = self.sch.ptr_type(pid)
         lhs = ['ptr', ['var', x], pid]
@@ -746,6 +747,8 @@ class Gen:
             if not self.path_ok(src[1], -pid):
                 return None
             self.used.add((src[1], -pid))
+        elif rnd.random() < 0.35:
+            src = ['limit', src, 1]          # backlink of a single object
         return ['back', src, pid, tid]
 
     def p_proj(self, ty, env, d, pa):
